@@ -180,11 +180,18 @@ def part_options(S, p):
             if k % NSHARD == p["i"] and (len(q) <= 3 or k % 7 == 0):
                 proj = ["--project-shape", ",".join(["1"] * max(1, dd - len(set(q))))] if k % 2 else ["-p", ",".join(["0"] * max(1, dd - len(q)))]
                 run_case(S, ["view", "-m", ",".join(map(str, q))] + proj, inpx, "view", "option-bounds axis-list+projection", "option_bounds")
+    # the global counting flags, any number of times, before and after the subcommand
+    flagsets = [["-q"], ["-qq"], ["-qqq"], ["-qqqq"], ["-q", "-q", "-q"], ["--quiet", "--quiet", "--quiet"], ["-qqqqqqqq"], ["-v"], ["-vvv"], ["-vvvvvvvv"],
+                ["--verbose"] * 5, ["-q", "-v"], ["-qqq", "--debug"], ["-vvvv", "--debug"]]
+    for k, fl in enumerate(flagsets):
+        if k % 4 == p["i"] % 4:
+            for sub, data_ in ((["view"], inp), (["stat", "-s", "sum"], inp), (["fold"], inp)):
+                run_case(S, fl + sub if k % 2 else sub + fl, data_, sub[0], "option-bounds global-flags", "option_bounds")
     # create options
     cs = G.random_callset(rng, nsamples=3, nrecords=4, complete_only=True, extras=False)
     vcf = cs.to_vcf()
     for c in (["-p", "9223372036854775808"], ["-p", "18446744073709551615"], ["--project-shape", "0"], ["--project-shape", "1,1"], ["-t", "0"], ["-t", "1024"],
-              ["--project-shape", "18446744073709551615"], ["-t", "1025"], ["-t", "100000"], ["-t", "18446744073709551615"], ["-t", "1024"], ["--precision", "65536", "-p", "1"], ["-p", "1", "--precision", "65535"], ["--strict", "-p", "1"]):
+              ["-qqq"], ["-q", "-q", "-q", "-q"], ["-vvvvv"], ["--project-shape", "18446744073709551615"], ["-t", "1025"], ["-t", "100000"], ["-t", "18446744073709551615"], ["-t", "1024"], ["--precision", "65536", "-p", "1"], ["-p", "1", "--precision", "65535"], ["--strict", "-p", "1"]):
         if (len(c[-1]) + p["i"]) % 2:
             run_case(S, ["create"] + c, vcf, "create", "option-bounds %s" % c[0], "option_bounds")
 
